@@ -38,7 +38,7 @@ func (d *driver) hook(to string) M {
 	case 0:
 		return M{"kind": "undecodable", "signer": "", "msgs": []any{}}
 	case 1:
-		return M{"kind": "badSig", "signer": pick(r, dUsers), "msgs": []any{M{"to": "u3", "denom": "l2/1/d1", "amt": int64(1)}}}
+		return M{"kind": "badSig", "signer": pick(r, dUsers), "msgs": []any{M{"kind": "send", "to": "u3", "denom": "l2/1/d1", "amt": int64(1)}}}
 	case 2, 3, 4:
 		signer := to
 		if r.Intn(4) == 0 || len(signer) < 2 || signer[0] != 'u' {
@@ -47,7 +47,11 @@ func (d *driver) hook(to string) M {
 		n := 1 + r.Intn(3)
 		var msgs []any
 		for i := 0; i < n; i++ {
-			msgs = append(msgs, M{"to": pick(r, []string{"u1", "u2", "u3", "u4", "u4", "panic", "opchild"}), "denom": pick(r, []string{"l2/1/d1", "l2/1/d1", "l2/1/d2", "n1"}), "amt": int64(r.Intn(8))})
+			if r.Intn(3) == 0 {
+				msgs = append(msgs, M{"kind": "withdraw", "to": pick(r, []string{"u1", "u2", "u3", l1.BadNotBech32}), "denom": pick(r, []string{"l2/1/d1", "l2/1/d1", "l2/1/d2", "n1"}), "amt": int64(r.Intn(5))})
+				continue
+			}
+			msgs = append(msgs, M{"kind": "send", "to": pick(r, []string{"u1", "u2", "u3", "u4", "u4", "panic", "opchild"}), "denom": pick(r, []string{"l2/1/d1", "l2/1/d1", "l2/1/d2", "n1"}), "amt": int64(r.Intn(8))})
 		}
 		return M{"kind": "msgs", "signer": signer, "msgs": msgs}
 	}
